@@ -20,9 +20,9 @@ func init() {
 			"(b) gates: each of them is reachable only through non-empty source path, the certified name validation, NewCLIPlugin and GetMetadata success of the new plugin, all on the one name value that is also used for Get, Uninstall and SysPath; " +
 			"(c) decision table (abstract interpretation of Install, and of the helpers of Install that consume a scenario input — source resolution, existence check, version gate — whose outcomes are bound to their results in Install, over source kind x overwrite x existence x metadata error x comparison error x comparison result, 216 scenarios): an effect is reachable exactly when the source is usable and " +
 			"(overwrite, or no plugin exists, or the comparison succeeded with new > existing); the first effect is always the clean-up; after it the directory source reaches only CopyDirToDir and the file source only CopyToDir; " +
-			"(d) copies happen only after the clean-up returned nil or not-exist, into SysPath(name), from the source that was validated; success is returned only after a copy succeeded, with the new plugin's metadata; " +
+			"(d) copies happen only after the clean-up returned nil or not-exist, into SysPath(name), from the source that was validated; success is returned only after a copy succeeded, with the new plugin's metadata; below Install, a copy routine answers nil only if every step it took answered nil (the error of each call on the copy path is tested or returned before the routine can report success); " +
 			"(e) version comparison: both versions pass the module's validity predicate, whose constant pattern classifies the semver.org corpus correctly, before x/mod Compare(\"v\"+new, \"v\"+existing); arguments in (new, existing) order; " +
-			"(f) discovery: every WalkDir callback of the install tree returns SkipDir for each directory other than the walk root (path compared with the root) and SkipDir / SkipAll for nothing but a directory; a walk that lives in a helper taking the per-entry action as a function value is certified as a pure walk (the action is only called by the callback, with the callback's path and entry, its answer is returned) and each caller's action is then judged as a callback, under the facts the helper established before the call; candidates are regular files only; the (executable, name) pair returned is parsed from that very file — held in two shared variables, or in the two fields of a record the callback built for that entry and nobody writes afterwards; two executables are refused; " +
+			"(f) discovery: every WalkDir callback of the install tree returns SkipDir for each directory other than the walk root (path compared with the root) and SkipDir / SkipAll for nothing but a directory — both as must-pass facts from the entry of the callback (a test that is present but no longer decides does not count); the callback goes on only behind `err == nil` for the error the walk handed it; every entry that may be a regular file reaches the copy; a walk that lives in a helper taking the per-entry action as a function value is certified as a pure walk (the action is only called by the callback, with the callback's path and entry, its answer is returned) and each caller's action is then judged as a callback, under the facts the helper established before the call; candidates are regular files only; the (executable, name) pair returned is parsed from that very file — held in two shared variables, or in the two fields of a record the callback built for that entry and nobody writes afterwards; two executables are refused; " +
 			"(g) binName and parsePluginName use the same constant prefix, so the copied executable is found under the parsed name.",
 		NotCov:  "file-system behaviour of the copy itself (a copy failing half-way after the clean-up), histories of operations, the metadata the installed plugin reports (it is the metadata of the executable that was run, C17).",
 		Trusted: []string{"go/types, go/ssa", "golang.org/x/mod/semver.Compare", "path/filepath.WalkDir", "os"},
@@ -530,6 +530,7 @@ func c20Order(c *Ctx, INST *ssa.Function, effects []c20Effect, newP, newMD *ssa.
 			"a copy into the plugin directory happens only after the clean-up of that plugin returned nil or not-exist, into SysPath(name) (error checked), from the source that was validated", w.InstrPos(cc),
 			fmt.Sprintf("%s: clean-up dominates=%v blocked without clean-up success=%v destination ok=%v syspath error checked=%v source ok=%v (source %s)", e.name, dom, blocked, dstOK, sysOK, srcOK, trunc(src, 100)))
 	}
+	c20CopyErrors(c, copies)
 	m := Mode{Kind: mErr}
 	// a copy succeeded: the nil-error edge of a copy call of Install, or of a helper call on the way to copies that answers
 	// nil only after one of its copies succeeded (c20DeepSel)
@@ -686,6 +687,7 @@ func c20Discovery(c *Ctx, INST *ssa.Function) {
 			n++
 			c.SeenFn(k.cb.String())
 			c20SkipDirW(c, k)
+			c20WalkErrW(c, k)
 			// fifth pass: the walk skeleton in a helper that hands every entry to a function its caller named (c20Delegates):
 			// the walk clause (SkipDir) was just decided on the helper, once for all callers; the clauses about what is done
 			// with an entry are decided on each caller's action, in the caller
@@ -765,11 +767,20 @@ func c20SkipDirW(c *Ctx, k *c20Walk) {
 	rootIn := k.innerDesc(rc)
 	p := "param:" + k.pathParam().Name()
 	d := "param:" + k.entryParam().Name()
-	isDirT := "T(call:invoke:io/fs.DirEntry.IsDir(" + d + "))"
+	// the edges on which the entry is known to be a directory — whichever way the test is spelled (`if d.IsDir()`, the
+	// else edge of `if !d.IsDir()`, a case of a switch, the type bits of the entry)
+	// (the tests on the entry itself; a test on its Info comes after the decision about sub-directories)
+	isDirT := anyOf(c20EntryLabels(d, "dir", true)[:2]...)
 	var starts []state
 	for _, b := range cl.Blocks {
-		if iff, ok := blockTerm(b).(*ssa.If); ok && condLabel(iff.Cond, true) == isDirT {
-			starts = append(starts, state{b.Succs[0].Index, 0, -1})
+		iff, ok := blockTerm(b).(*ssa.If)
+		if !ok || len(b.Succs) != 2 {
+			continue
+		}
+		for j := 0; j < 2; j++ {
+			if isDirT(condLabel(iff.Cond, j == 0), iff, j == 0) {
+				starts = append(starts, state{b.Succs[j].Index, 0, -1})
+			}
 		}
 	}
 	if len(starts) == 0 {
@@ -777,7 +788,11 @@ func c20SkipDirW(c *Ctx, k *c20Walk) {
 		return
 	}
 	cut := fi.edgesMatching(anyOf("EQ("+p+","+rootIn+")", "EQ("+rootIn+","+p+")"))
-	// every return reachable now must return SkipDir (or an error value that is not nil)
+	nRoot := len(cut)
+	for e := range fi.edgesMatching(anyOf(c20EntryLabels(d, "dir", false)...)) {
+		cut[e] = true // a later test that finds the entry not to be a directory contradicts the start: not a path of a directory
+	}
+	// every return reachable now must return SkipDir
 	seen := map[int]bool{}
 	var stack []int
 	for _, s := range starts {
@@ -807,9 +822,17 @@ func c20SkipDirW(c *Ctx, k *c20Walk) {
 		}
 	}
 	c.Evals++
-	if len(cut) == 0 {
+	if nRoot == 0 {
 		okAll = false
 		detail = "the callback never compares its path with the walk root (" + rootIn + "): " + detail
+	}
+	// sixth pass: and nothing else is reachable from the entry of the callback for such an entry — every path that does
+	// not pass "not a directory" or "path == root" ends in SkipDir or fails the walk (c20SubDirsAnswered): a test that is
+	// there but no longer decides (`cond && d.IsDir() && p != root`) lets sub-directories through
+	if okAll {
+		if why := c20SubDirsAnswered(w, cl, p, d, rootIn); why != "" {
+			okAll, detail = false, why
+		}
 	}
 	c.Check(okAll, key, rule, w.FnPos(cl), detail)
 	c20SkipOnlyDirs(c, k)
@@ -1218,7 +1241,6 @@ func c20DirCopy(c *Ctx, D, cl *ssa.Function) {
 func c20DirCopyW(c *Ctx, k *c20Walk) {
 	w := c.W
 	D, cl := k.outer, k.cb
-	fi := w.Info(cl)
 	p := "param:" + k.pathParam().Name()
 	d := "param:" + k.entryParam().Name()
 	var cp *ssa.Call
@@ -1240,27 +1262,16 @@ func c20DirCopyW(c *Ctx, k *c20Walk) {
 	// `result == nil` (c20ReturnsResult — also when the copy and a `return nil` share one block, as in an action that is
 	// nothing but the copy)
 	okErr := c20ReturnsResult(w, cl, cp)
-	// every regular entry is copied: from the IsRegular true edge every path reaches the copy
-	okAll := false
-	if k.via == nil {
-		for _, b := range cl.Blocks {
-			if iff, ok := blockTerm(b).(*ssa.If); ok && condLabel(iff.Cond, true) == reg {
-				cut := map[edgeKey]bool{}
-				cutInto(fi, cp.Block(), cut)
-				if b.Succs[0] == cp.Block() {
-					okAll = true
-				} else {
-					okAll = fi.successWitness(Mode{Kind: mErr}, []state{{b.Succs[0].Index, 0, -1}}, cut) == nil
-				}
-			}
-		}
-	} else {
-		// the test sits in the walk helper's callback: from its true edge every path reaches a call of the action (or fails
-		// the walk), and from the entry of the action every path reaches the copy (or fails the walk); the helper's callback
-		// returns what the action answers (c20Delegates)
+	// every regular entry is copied (sixth pass: asked from the entry of the per-entry function, not from the true edge of
+	// the test — a test that no longer decides, `cond && IsRegular()`, leaves the `return nil` after it reachable for a
+	// regular file): with the edges into the copy and the edges "not a regular file" / "a directory" removed, no return
+	// that lets the walk go on is reachable (c20NoSuccessWithout). When the walk sits in a helper, the same holds for the
+	// helper's callback and its calls of the action, and for the action and its copy; the helper's callback returns what
+	// the action answers (c20Delegates)
+	okAll := c20NoSuccessWithout(w, cl, d, []*ssa.Call{cp}) == ""
+	if k.via != nil {
 		hk := k.via.hk
-		regH := "T(call:(io/fs.FileMode).IsRegular(call:invoke:io/fs.FileInfo.Mode(call:invoke:io/fs.DirEntry.Info(param:" + hk.entryParam().Name() + ")#0)))"
-		okAll = c20EveryPathReaches(w, hk.cb, regH, k.via.calls) && c20FromEntryReaches(w, cl, cp)
+		okAll = okAll && c20NoSuccessWithout(w, hk.cb, "param:"+hk.entryParam().Name(), k.via.calls) == ""
 	}
 	c.Evals += 2
 	c.Check(labelHas(g, reg) && okArgs && okErr && okAll, "copy/directory", "the directory copy hands every regular top-level entry (judged on the entry's own Info), and nothing else, to the single-file copy with the destination directory, and returns its error", w.InstrPos(cp),
